@@ -622,6 +622,7 @@ def t04_fmask(run, fx):
 def check(run, fx, tier, floors=True):
     import speclayout
     speclayout.rule_layouts(run, fx, "T04-LAYOUT", ["layout"], floors)
+    speclayout.rule_records(run, fx, "T04-REC", ['layout'], floors)
     t04_type(run, fx)
     t04_rd(run, fx)
     t04_flag(run, fx)
